@@ -62,6 +62,9 @@ func (s *Script) requests(callID string) []chunk {
 			}
 			continue
 		}
+		if i < len(s.Texts) && s.Texts[i] != "" {
+			c.Text = s.Texts[i]
+		}
 		if i == 0 && !s.MetaPlan {
 			c.Script = s.planJSON()
 		}
@@ -230,6 +233,16 @@ func runGRPC(ctx context.Context, cc *grpc.ClientConn, s *Script, callID string)
 	for recvOne() {
 	}
 	return t
+}
+
+// jsonOf is the JSON encoding of a request message on the JSON fronts. With
+// JSONEsc every backslash escape of the encoding (\\) is written \u005c.
+func (s *Script) jsonOf(c chunk) ([]byte, error) {
+	b, err := jsonM.Marshal(c.msg())
+	if err == nil && s.JSONEsc {
+		b = bytes.ReplaceAll(b, []byte(`\\`), []byte(`\u005c`))
+	}
+	return b, err
 }
 
 // think executes a "w<ms>" step: client think time (workload, not a verdict).
@@ -478,7 +491,7 @@ func runHTTP(ctx context.Context, hc *http.Client, base string, s *Script, callI
 		u := base + pathOf[s.Shape] + "/" + callID + "?script=" + url.QueryEscape(reqs[0].Script)
 		req, err = http.NewRequestWithContext(ctx, "GET", u, nil)
 	} else {
-		rd, berr := requestBody(ctx, s, reqs, func(_ int, c chunk) ([]byte, error) { return jsonM.Marshal(c.msg()) }, s.Gzip)
+		rd, berr := requestBody(ctx, s, reqs, func(_ int, c chunk) ([]byte, error) { return s.jsonOf(c) }, s.Gzip)
 		if berr != nil {
 			t.TransportErr = "marshal: " + berr.Error()
 			return t
